@@ -56,8 +56,8 @@ type field struct {
 	inline     bool
 	tagPol     string // "", merge, replace, append, prepend
 	hint       hint
-	hasInit    bool // primitive type with InitDefaults
-	elemPtr    bool // kSliceStruct: the elements are pointers to structs
+	hasInit    bool   // primitive type with InitDefaults
+	elemPtr    bool   // kSliceStruct: the elements are pointers to structs
 	elem       *field // kArrayComp: description of one element (kStruct, kMapPrim or kSlicePrim)
 	owner      *stype
 }
@@ -377,7 +377,7 @@ func (g *tgen) structType(depth, nf int, validators bool) reflect.Type {
 		sf := reflect.StructField{Name: "F" + strconv.Itoa(num)}
 		extra := ""
 		inline := false
-		var pool []string // the policy tag options this kind of field may carry ...
+		var pool []string      // the policy tag options this kind of field may carry ...
 		polNum, polDen := 0, 1 // ... and how often
 		x := r.Intn(105)
 		if depth == 0 && x >= 44 && x < 62 {
